@@ -175,6 +175,42 @@ CHECKS = {
         "elements the identification tries (mag_range_distinct_partial); the pipeline-level statement is C12."),
   technique="Lean 4 kernel-decided table theorems over regenerated magnetic tables + exhaustive parser correspondence",
   engine="lean-proofs+translator+correspondence"),
+
+ "C08": dict(
+  category="proof",
+  text=("Three layers. (1) Theorems (Props/C08.lean): the retry loops (plain and magnetic) make at most 64 attempts whatever the attempts return and report exhaustion only after all of them; HNF/SNF terminate "
+        "(C15); negative theorems: the uncapped BFS closures diverge on generator sets that pass the pre-checks (explicit shear of infinite order; the Hall-like string P 2 3), positive theorem traverse_capped for the capped "
+        "version the repaired tree uses; check_closure_key_present. (2) Panic-site inventory: every unwrap/expect/index/assert/unreachable/panic/unsigned subtraction/division site of the non-test code (regenerated on every "
+        "run, 440+ sites) must be matched by a discharge record (guard, invariant lemma, table-derived, known-finding key); kernel-decided all_sites_discharged. (3) Exploration of what no model shows: wild inputs for "
+        "both dataset constructors, the reductions, HNF/SNF, table look-ups and a malformed Hall-symbol stream, each request in its own child process with a 4 GB limit and a deadline; S12: recorded tolerance updates vs the "
+        "Lean retry model."),
+  design_ref="DESIGN.md §3 C08",
+  note=("Trusted: the tokenising inventory translator and the hand-written discharge table (low-confidence records are flagged in the table); real time/memory are sampled not proved; termination of the Minkowski/Niggli/"
+        "Delaunay loops is explored only. Four known findings (two reductions with time/memory proportional to basis entries, two i32 overflows) are listed in known_findings.txt."),
+  technique="Lean 4 proofs (bounded retry, divergence/cap of closures) + regenerated panic-site inventory decided in the kernel + isolated child-process exploration",
+  engine="lean-proofs+inventory+isolated-exploration"),
+ "C11": dict(
+  category="proof",
+  text=("Verified oracle (Props/C11.lean): checkC11_iff: the Lean checker is silent iff every reported (R,t,theta) carries every atom onto an atom of its species within 4*symprec whose moment equals the transformed moment "
+        "within 4*mag_symprec (both moment kinds, both actions; moment_action proves the model of act_rotation/act_time_reversal incl. the rounded determinant), the set is closed with inverses modulo translations, and it equals "
+        "the generating magnetic group conjugated by the recorded re-description; timereversal_index: the theta-free part of a closed finite set is a subgroup of index 1 or 2. Explored: structures generated from a seed-dependent "
+        "third of the 1651 magnetic groups (all of them in thorough) x {collinear, non-collinear} x {polar, axial}, re-described cells, premise validated by an independent brute-force magnetic symmetry search."),
+  design_ref="DESIGN.md §3 C11", note=PIPE_NOTE,
+  technique="Lean 4 verified oracle (iff) + moment-action and index theorems, run on generated magnetic structures"),
+ "C12": dict(
+  category="proof",
+  text=("Verified oracle checkC12_iff + kernel-decided table theorems grey_unique / grey_count / grey_fixed (exactly one type-II entry per ITA number). Explored: the returned UNI number equals the generating one for generated "
+        "magnetic structures in re-described cells and orientations (moments rotated with the frame), with all moments reversed, and all-zero moments give the grey group of the family space group; an Err counts as a violation."),
+  design_ref="DESIGN.md §3 C12", note=PIPE_NOTE + " The identification stage for magnetic groups is not modelled.",
+  technique="Lean 4 oracle + table theorems over regenerated magnetic tables, run on generated magnetic structures"),
+ "C13": dict(
+  category="proof",
+  text=("Verified oracle checkC13_iff for every clause of C13 (lattice relations, atoms and moments carried by the reported transformation onto std_mag_cell / prim_std_mag_cell sites, exact symmetry of std_mag_cell under the "
+        "transported reported operations, the tabulated reference-setting operations and — outside type-IV triclinic/monoclinic — the tabulated magnetic operations of the UNI number); reynolds_moments (averaging a linear "
+        "representation over a finite group with a compatible site action gives invariant moments); kernel-checked negative instances for the three defects of the pinned tree (frame, site map, origin shift), which were "
+        "repaired by fix commits. Explored as C11."),
+  design_ref="DESIGN.md §3 C13", note=PIPE_NOTE,
+  technique="Lean 4 verified oracle (iff) + Reynolds theorem + negative witnesses for the repaired defects"),
 }
 
 NA_REASON = "check not built yet (work in progress; will be claimed)"
